@@ -111,6 +111,31 @@ class Drawn:
         return self.choice(hi + 1)
 
 
+class Rand:
+    """Chooser backed by a seeded random.Random (for cases built outside Hypothesis)."""
+
+    plain = False
+
+    def __init__(self, rnd):
+        self.rnd = rnd
+        self.features = set()
+
+    def choice(self, n, label=None):
+        k = self.rnd.randrange(n)
+        if k and label:
+            self.features.add(label)
+        return k
+
+    def chance(self, label=None):
+        k = self.rnd.random() < 0.5
+        if k and label:
+            self.features.add(label)
+        return k
+
+    def small(self, hi):
+        return self.choice(hi + 1)
+
+
 # --------------------------------------------------------------------------
 # token = (bytes, starts_regular, ends_regular)
 def _tok(b):
@@ -454,10 +479,22 @@ def same(a, b):
     """Type-strict deep equality of canonical forms (float vs int distinguished by tag)."""
     if type(a) is not type(b):
         return False
+    # explicit loops: builtins such as all() put C frames between the Python frames, and CPython 3.12 limits the depth
+    # of those separately from sys.setrecursionlimit (values nested 300 levels deep are compared here)
     if isinstance(a, tuple) or isinstance(a, list):
-        return len(a) == len(b) and all(same(x, y) for x, y in zip(a, b))
+        if len(a) != len(b):
+            return False
+        for i in range(len(a)):
+            if not same(a[i], b[i]):
+                return False
+        return True
     if isinstance(a, dict):
-        return a.keys() == b.keys() and all(same(a[k], b[k]) for k in a)
+        if a.keys() != b.keys():
+            return False
+        for k in a:
+            if not same(a[k], b[k]):
+                return False
+        return True
     if isinstance(a, float):
         return a == b or (a != a and b != b)
     return a == b
